@@ -272,3 +272,64 @@ func (j *J) objects() int {
 
 	return n
 }
+
+// objectsList collects every object node of the document.
+func (j *J) objectsList(out *[]*J) {
+	if j.K == "o" {
+		*out = append(*out, j)
+	}
+	for _, e := range j.A {
+		e.objectsList(out)
+	}
+	for _, m := range j.O {
+		m.Val.objectsList(out)
+	}
+}
+
+func (j *J) clone() *J {
+	c := *j
+	c.A = nil
+	for _, e := range j.A {
+		c.A = append(c.A, e.clone())
+	}
+	c.O = nil
+	for _, m := range j.O {
+		c.O = append(c.O, JM{m.Key, m.Val.clone()})
+	}
+
+	return &c
+}
+
+// dropped returns a copy in which one member of one object is missing (nil if there is no member at all).
+func (j *J) dropped(rng *hx.Rng) *J {
+	c := j.clone()
+	var objs, nonEmpty []*J
+	c.objectsList(&objs)
+	for _, o := range objs {
+		if len(o.O) > 0 {
+			nonEmpty = append(nonEmpty, o)
+		}
+	}
+	if len(nonEmpty) == 0 {
+		return nil
+	}
+	o := nonEmpty[rng.Intn(len(nonEmpty))]
+	i := rng.Intn(len(o.O))
+	o.O = append(o.O[:i:i], o.O[i+1:]...)
+
+	return c
+}
+
+// extended returns a copy in which one object has an additional member that no schema names.
+func (j *J) extended(rng *hx.Rng) *J {
+	c := j.clone()
+	var objs []*J
+	c.objectsList(&objs)
+	if len(objs) == 0 {
+		return nil
+	}
+	o := objs[rng.Intn(len(objs))]
+	o.O = append(o.O, JM{"~extra", &J{K: "n", Num: "7"}})
+
+	return c
+}
